@@ -298,6 +298,34 @@ fn check(seq: &Seq, as_call: bool, st: &mut Stats) {
             format!("{} with final variables {:?}, call log {:?}", describe(&rref), vars_ref, log_ref),
             format!("{} with final variables {:?}, call log {:?}", res_dbg(&real), vars_real, log_real),
         ));
+        return;
+    }
+    // "a chain ending in `;` evaluates to the empty value": the typed accessor for exactly that value
+    // must accept the sequence and apply the same effects
+    if matches!(&rref, Ok(RV::Empty)) {
+        log.lock().unwrap().clear();
+        let mut ce = HCtx::new();
+        let l4 = log.clone();
+        ce.set_function(
+            "f".into(),
+            Function::new(move |a| {
+                l4.lock().unwrap().push(RV::from_ev(a));
+                Ok(a.clone())
+            }),
+        )
+        .unwrap();
+        let r = guarded(|| tree.eval_empty_with_context_mut(&mut ce));
+        st.evaluations += 1;
+        st.count("empty-valued-sequences-through-eval_empty");
+        let elog: Vec<String> = log.lock().unwrap().iter().map(|v| v.key()).collect();
+        let good = matches!(&r, Ok(Ok(()))) && observe_vars(&ce) == vars_ref && elog == log_ref;
+        if !good {
+            st.violation(mk(
+                "empty-valued-sequence-through-eval_empty_with_context_mut",
+                format!("Ok(()) with final variables {:?}, call log {:?}", vars_ref, log_ref),
+                format!("{} with final variables {:?}, call log {:?}", match &r { Ok(x) => format!("{:?}", x), Err(p) => format!("panic at {}: {}", p.location, p.message) }, observe_vars(&ce), elog),
+            ));
+        }
     }
 }
 
